@@ -141,6 +141,48 @@ def check_trailer(rep, ix):
     want_seq = [s.replace('myPayLoad', payname) for s in want_seq]
     rep.ob('R-C05-TRAILER', f'{P}:PhysRecWrite.writeLr', 'record = length, attributes, payload, record number, file number, checksum', seq == want_seq,
            found=str(seq), required=str(want_seq), node=w, module=m)
+    # the trailer fields are emitted unconditionally in writeLr (each emitter answers b'' for an absent field): a guard
+    # around them must agree with the header's announcement for every trailer, including file number 0
+    g_w = cfgmod.CFG(w)
+    for c in common.calls_in(w):
+        if (attr_chain(c.func) or '').endswith('.extend') and c.args and _n(c.args[0]) in ('self._prt.prtRecNum()', 'self._prt.prtFileNum()', 'self._prt.prtCheckSum()'):
+            # (a guard on hasTail() is the disjunction of the three presence tests - its own obligations below - and is accepted)
+            deps = [b for b, lab in g_w.control_deps(common.stmt_containing(c)) if isinstance(b, ast.If) and not (_n(b.test) == 'self._prt.hasTail()' and lab == 'true')]
+            rep.ob('R-C05-TRAILER', f'{P}:PhysRecWrite.writeLr', f'{_n(c.args[0])} is appended to every physical record (no extra condition)', not deps,
+                   found='; '.join(_n(b.test) for b in deps), required='unconditional: the emitter itself decides', node=c, module=m)
+    # presence of the file number is `is not None` everywhere in the trailer class (0 is a file number)
+    tcls = ix.get_class(P, 'PhysRecTail')
+    for fn_ in tcls.body:
+        if not isinstance(fn_, ast.FunctionDef):
+            continue
+        for n in walk_no_nested(fn_):
+            tests = []
+            if isinstance(n, (ast.If, ast.While, ast.IfExp)):
+                tests = [n.test]
+            elif isinstance(n, ast.BoolOp):
+                tests = list(n.values)
+            elif isinstance(n, ast.UnaryOp) and isinstance(n.op, ast.Not):
+                tests = [n.operand]
+            elif isinstance(n, ast.Call) and _n(n.func) == 'bool' and n.args:
+                tests = [n.args[0]]
+            for t in tests:
+                if attr_chain(t) == 'self._fileNum':
+                    rep.ob('R-C05-TRAILER', f'{P}:PhysRecTail.{fn_.name}', 'the file number is tested for presence, not for truth', False,
+                           found=_n(common.stmt_containing(n))[:100], required='self._fileNum is not None', node=n, module=m)
+    # the tape image marker is written with the complete record length: nothing is appended to the record after it
+    tifw = [s_ for s_ in g_w.stmts() if any(_n(c.func) == 'self.tif.write' for c in cfgmod.calls_at(s_))]
+    outw = [s_ for s_ in g_w.stmts() if any(_n(c.func) == 'self.stream.write' for c in cfgmod.calls_at(s_))]
+    buf = _n(outw[0].value.args[0]) if len(outw) == 1 and outw[0].value.args else None
+    ok = len(tifw) == 1 and len(outw) == 1 and buf is not None
+    late = []
+    if ok:
+        ok = _n(tifw[0].value.args[1]) == f'len({buf})' if isinstance(tifw[0], ast.Expr) and len(tifw[0].value.args) == 2 else False
+        for s_ in g_w.stmts():
+            if any(isinstance(c.func, ast.Attribute) and c.func.attr in common.MUTATORS and _n(c.func.value) == buf for c in cfgmod.calls_at(s_)):
+                if g_w.path_avoiding(tifw[0], s_, set(outw), skip_exc=True):
+                    late.append(s_)
+    rep.ob('R-C05-TRAILER', f'{P}:PhysRecWrite.writeLr', 'the TIF marker is given the length of the finished record (header, payload and whole trailer)', ok and not late,
+           found='; '.join(_n(x)[:60] for x in late) if late else (buf or 'anchors missing'), required='no append to the record between the marker and the write', node=tifw[0] if tifw else w, module=m)
     # length field = 4 + payload + trailer in linear normal form
     if seq:
         mm = re.match(r'^PR_PRH_LEN_FORMAT\.pack\((.*)\)$', seq[0])
@@ -645,6 +687,10 @@ def run(rep, ix, tier):
     check_tif(rep, ix)
     check_forward(rep, ix)
     rep.floor('R-C05-BITS', 30)
+    # padded physical records are read with the settings the caller chose: rule of C20
+    from . import C20
+    C20.pad_binding(rep, ix, 'R-C20-BIND')
+    rep.floor('R-C20-BIND', 2)
     rep.floor('R-C05-TRAILER', 18)
     rep.floor('R-C05-SUCC', 10)
     rep.floor('R-C05-LOOP', 14)
